@@ -233,6 +233,11 @@ func vfGenC12(t *rapid.T) vfC12Case {
 	cfg := &vfGenCfg{MaxOps: 9, TwoWallets: false,
 		Weights: map[string]int{"new": 5, "next": 6, "gen": 3, "remark": 2, "chpriv": 2, "chpub": 1, "delete": 1, "export": 1, "xfer": 1, "lock": 2, "unlock": 4, "restart": 1}}
 	c := vfC12Case{Prefix: vfGenWProg(t, cfg)}
+	// operations that touch every keystore (passphrase changes) or pick one of several are only interesting on a
+	// wallet with several keystores: half of the histories get one or two more
+	for i, n := 0, rapid.SampledFrom([]int{0, 0, 1, 2}).Draw(t, "moreKeystores"); i < n; i++ {
+		c.Prefix.Ops = append(c.Prefix.Ops, vfWOp{K: "new", Pass: "cur", S: rapid.SampledFrom(vfRemarks).Draw(t, "mremark"), Seed: rapid.SliceOfN(rapid.Byte(), 32, 32).Draw(t, "mseed")})
+	}
 	kind := rapid.SampledFrom(vfC12Targets).Draw(t, "target")
 	op := vfWOp{K: kind}
 	switch kind {
@@ -410,6 +415,9 @@ func vfC12Run(cs vfC12Case, c *vlib.Ctx) *vlib.Failure {
 	W, C := fdb.writes, fdb.commits
 	fdb.inner.Close()
 	c.Label("target:" + cs.Target.K)
+	if len(m0.Order) >= 2 {
+		c.Label("target:" + cs.Target.K + ":on->=2-keystores")
+	}
 	if W == 0 {
 		c.Label("target-without-writes")
 	}
